@@ -9,7 +9,7 @@ from . import c01
 
 PROP = "C08"
 PROPS_FILE = "theories/Props/C08.v"
-THEOREMS = ["c08_filter_scans_everything", "c08_params", "c08_one_solver_each", "c08_numeric_symbols_closed", "c08_numeric_update_symbols_closed"]
+THEOREMS = ["c08_initial_values_by_name", "c08_initial_values_order_irrelevant", "c08_filter_scans_everything", "c08_params", "c08_one_solver_each", "c08_numeric_symbols_closed", "c08_numeric_update_symbols_closed"]
 GEN_FILES = ["ParamFilterGen.v"]
 TRUSTED = ["Coq 8.16.1 kernel + vm_compute", "theorems closed under the global context",
            "translator harness/translate_more.gen_param_filter: the list of solver-dictionary keys scanned by the parameter filter of _analysis, regenerated from /repo on every run (fail-closed)",
@@ -32,6 +32,72 @@ MARKERS = [None, "_D", "__deriv"]
 
 def cstr(s):
     return '"%s"%%string' % s
+
+
+HEADER_IV = """From Coq Require Import List String Ascii Bool ZArith.
+From OdeVerif Require Import Base.Corr Model.InputCheck Model.InitialValues.
+Import ListNotations.
+(* case: order, the user's (key, value id) pairs in the order listed, observed value ids for x, x', ... *)
+Definition agree (c : (nat * list (string * Z)) * list (option Z)) : bool :=
+  list_eqb (option_eqb Z.eqb)
+    (output_ivs (fst (fst c)) (map (fun kv => (list_ascii_of_string (fst kv), snd kv)) (snd (fst c)))) (snd c).
+Definition mism (cases : list ((nat * list (string * Z)) * list (option Z))) : list nat := mism_by agree cases.
+"""
+
+
+def impl_ivs(task):
+    """analysis() on entries of order >= 2 whose initial values are pairwise distinct numbers listed in an arbitrary key order;
+    returns, per case, the returned initial value of x, x', ... as floats"""
+    import odetoolbox
+    from odetoolbox.config import Config
+    from . import impl_worker
+    outs = []
+    for c in task["cases"]:
+        defaults = dict(Config.config)
+        try:
+            res = odetoolbox.analysis(c["indict"], disable_stiffness_check=True, **c.get("flags", {}))
+            got = {}
+            for so in res:
+                for nm, v in so["initial_values"].items():
+                    got[nm] = float(v)
+            outs.append({"api": "Ok", "ivs": got})
+        except BaseException as e:   # noqa
+            if isinstance(e, KeyboardInterrupt):
+                raise
+            outs.append({"api": impl_worker.classify_exception(e), "detail": str(e)[:200]})
+        finally:
+            Config.config.clear()
+            Config.config.update(defaults)
+    return {"outcome": "Ok", "outs": outs}
+
+
+def gen_iv_case(rng):
+    name = rng.choice(["x", "V_m", "g", "w_ad", "I", "V_d"])
+    order = rng.choice([2, 2, 3, 3, 4])
+    numeric_only = order >= 3 or rng.random() < 0.5      # the matrix exponential of a third-order block takes SymPy minutes; routing does not depend on it
+    marker = rng.choice(["__d", "__d", "_D", "__deriv"])
+    vals = rng.sample([1, 2, 3, 5, 7, 11, -4, -6, 13, 0.5, 0.25, -1.5], order)
+    keys = list(range(order))
+    rng.shuffle(keys)
+    pairs = []
+    for k in keys:
+        key = name + "'" * k
+        q = rng.random()
+        if q < 0.15:
+            key = " " + key
+        elif q < 0.3:
+            key = key + " "
+        pairs.append((key, vals[k]))
+    coefs = {2: [2, 3], 3: [6, 11, 6], 4: [24, 50, 35, 10]}[order]          # real, distinct decay rates 1, 2, ... (no oscillation)
+    lin = " - ".join(["0"] + ["%d*%s%s" % (coefs[k], name, "'" * k) for k in range(order)])
+    rhs = lin if rng.random() < 0.5 else lin + " - %s**3/8" % name
+    ind = {"dynamics": [{"expression": "%s%s = %s" % (name, "'" * order, rhs), "initial_values": {k: repr(v) for k, v in pairs}}]}
+    if rng.random() < 0.5:
+        ind["dynamics"].insert(rng.randint(0, 1), {"expression": "y' = -y/3", "initial_value": "9"})
+    if marker != "__d":
+        ind["options"] = {"differential_order_symbol": marker}
+    flags = {"disable_analytic_solver": True} if numeric_only else {}
+    return {"indict": ind, "flags": flags, "name": name, "order": order, "marker": marker, "pairs": pairs, "vals": vals}
 
 
 def run(ctx):
@@ -67,17 +133,42 @@ def run(ctx):
                     import copy
                     s2 = copy.deepcopy(s)
                     parameters["x0_iv"] = "0.75"
-                    e = s2["entries"][rng.randrange(len(s2["entries"]))]
-                    e["ivs"][rng.randrange(len(e["ivs"]))] = rng.choice(["x0_iv", "2*x0_iv", "x0_iv/4"])
+                    high = [e_ for e_ in s2["entries"] if e_["order"] > 1]
+                    e = rng.choice(high) if high and rng.random() < 0.7 else s2["entries"][rng.randrange(len(s2["entries"]))]
+                    slot = rng.randrange(1, len(e["ivs"])) if len(e["ivs"]) > 1 and rng.random() < 0.7 else rng.randrange(len(e["ivs"]))   # mostly the initial value of a DERIVATIVE
+                    e["ivs"][slot] = rng.choice(["x0_iv", "2*x0_iv", "x0_iv/4"])
                     if e["order"] > 1:
                         e["single_iv"] = False
             ind = U.render(s2, style=rng.choice([0, 1, 2]), rng=random.Random(k), options=options or None, parameters=parameters)
             flags = {"disable_analytic_solver": rng.random() < 0.25}
             tasks.append({"fn": "sysimpl.run_c08", "indict": ind, "flags": flags, "api_timeout": 25, "timeout": 90})
             meta.append((s2, hs or "__h", mk or "__d", mode))
-    res = C.run_tasks(tasks, timeout=90)
+    # the same input analysed in ONE interpreter under several names for the step size and the derivative marker (deterministic
+    # counterpart of the workers' sharing): every returned dictionary must use the names configured for ITS call
+    import copy as _copy
+    seq_tasks, seq_meta = [], []
+    for k in rng.sample(range(len(tasks)), min(len(tasks), 8 if quick else 60)):
+        s_, hs_, mk_, mode_ = meta[k]
+        subs_, metas_ = [], []
+        for hs2, mk2 in [(hs_, mk_)] + [(rng.choice(["__h", "dt", "__dt", "Delta"]), rng.choice(["__d", "_D", "__deriv"])) for _ in range(2)] + [(hs_, mk_)]:
+            ind_ = _copy.deepcopy(tasks[k]["indict"])
+            ind_.setdefault("options", {})["output_timestep_symbol"] = hs2
+            ind_["options"]["differential_order_symbol"] = mk2
+            subs_.append(dict(tasks[k], indict=ind_))
+            metas_.append((s_, hs2, mk2, mode_))
+        seq_tasks.append({"fn": "sysimpl.run_c08_seq", "subs": subs_, "timeout": 400, "fresh": True})
+        seq_meta.append(metas_)
+    allres = C.run_tasks(tasks + seq_tasks, timeout=400)
+    res = allres[:len(tasks)]
+    for metas_, t_, r_ in zip(seq_meta, seq_tasks, allres[len(tasks):]):
+        if r_.get("outcome") != "Ok":
+            continue
+        for pos_, (m_, sub_, rr_) in enumerate(zip(metas_, t_["subs"], r_["results"])):
+            meta.append(m_)
+            tasks.append(dict(sub_, sequence=[x_["indict"]["options"] for x_ in t_["subs"][:pos_]]))
+            res.append(rr_)
     coq, info, probe_failures, corr_errors = [], [], [], []
-    dist = {"api": {}, "hsym": {}, "marker": {}, "param_mode": {}, "solver_kinds": {}, "solvers_checked": 0, "params_listed": 0, "iv_only_param_cases": 0}
+    dist = {"api": {}, "hsym": {}, "marker": {}, "param_mode": {}, "solver_kinds": {}, "solvers_checked": 0, "params_listed": 0, "iv_only_param_cases": 0, "same_interpreter_sequences": len(seq_tasks)}
     nontriv = set()
     samples = []
     for (s, hs, mk, mode), t, r in zip(meta, tasks, res):
@@ -165,6 +256,39 @@ def run(ctx):
         nontriv.add(C.stable_hash(t["indict"]))
         if len(samples) < 3 and mode != "absent":
             samples.append({"indict": t["indict"], "solvers": r["solvers"]})
+    # ---- routing of initial values (model: Model/InitialValues.output_ivs)
+    iv_cases = [gen_iv_case(rng) for _ in range(40 if quick else 400)]
+    chunks = [iv_cases[i::8] for i in range(8)]
+    ivres = C.run_tasks([{"fn": "c08.impl_ivs", "cases": ch, "timeout": 600} for ch in chunks if ch], timeout=600)
+    coq_iv, info_iv = [], []
+    dist["initial_value_routing"] = {"cases": 0, "orders": {}, "keys_not_ascending": 0}
+    for ci, r in enumerate(ivres):
+        if r.get("outcome") != "Ok":
+            corr_errors.append("initial-value worker failed: %s" % str(r)[:200])
+            continue
+        for c, o in zip([ch for ch in chunks if ch][ci], r["outs"]):
+            if o["api"] != "Ok" and o["api"] not in ("Malformed", "Assert"):
+                dist["initial_value_routing"]["skipped_" + o["api"]] = dist["initial_value_routing"].get("skipped_" + o["api"], 0) + 1
+                continue
+            if o["api"] != "Ok":
+                probe_failures.append({"key": "valid input with shuffled initial_values keys rejected: " + C.stable_hash(c["indict"]), "what": "analysis() fails with %s (%s) on %s" % (o["api"], o.get("detail"), c["indict"]), "replay": {"iv_case": c}})
+                continue
+            dist["initial_value_routing"]["cases"] += 1
+            dist["initial_value_routing"]["orders"][str(c["order"])] = dist["initial_value_routing"]["orders"].get(str(c["order"]), 0) + 1
+            dist["initial_value_routing"]["keys_not_ascending"] += int([k.count("'") for k, _ in c["pairs"]] != sorted(k.count("'") for k, _ in c["pairs"]))
+            obs = []
+            for k in range(c["order"]):
+                v = o["ivs"].get(c["name"] + c["marker"] * k)
+                ids = [i for i, (_, val) in enumerate(c["pairs"]) if v is not None and abs(val - v) < 1e-12]
+                obs.append("Some (%d)%%Z" % ids[0] if ids else "None")
+                if v is None or abs(v - c["vals"][k]) > 1e-12:
+                    probe_failures.append({"key": "initial value of a state variable is not the one supplied for it: " + C.stable_hash(c["indict"]),
+                                           "what": "%s%s is returned with initial value %s; the input lists %s under the key with %d prime(s) | input %s" % (c["name"], c["marker"] * k, v, c["vals"][k], k, c["indict"]),
+                                           "replay": {"iv_case": c}})
+                    break
+            coq_iv.append("((%d%%nat, %s), %s)" % (c["order"], C.clist(['("%s"%%string, (%d)%%Z)' % (key, i) for i, (key, _) in enumerate(c["pairs"])]), C.clist(obs)))
+            info_iv.append({"indict": c["indict"], "returned": o["ivs"]})
+            nontriv.add(C.stable_hash(["iv", c["indict"]]))
     mism, errs = ([], [])
     import os
     if os.path.exists(os.path.join(C.COQ, "theories/Gen/ParamFilterGen.vo")):
@@ -172,20 +296,40 @@ def run(ctx):
     else:
         errs = ["Gen/ParamFilterGen.vo not built"]
     corr_errors += errs
-    corr_mismatches = [{"layer": "listed parameters vs Model/Output.filter_params with the regenerated scanned keys", "case": info[i]} for i in mism[:6]]
+    mism_iv, errs_iv = C.coq_eval_shards(PROP + "iv", HEADER_IV, coq_iv, per=200)
+    corr_errors += errs_iv
+    corr_mismatches = [{"layer": "listed parameters vs Model/Output.filter_params with the regenerated scanned keys", "case": info[i]} for i in mism[:6]] + \
+                      [{"layer": "returned initial values vs Model/InitialValues.output_ivs (routing by the number of primes of the key)", "case": info_iv[i]} for i in mism_iv[:4]]
     return {"evaluations": len(tasks), "distinct_nontrivial": len(nontriv),
             "rule": "corpus + random linear / mixed systems x {default, dt, __dt} time-step symbol x {__d, _D, __deriv} marker x parameters block {absent, all, with unused, with a parameter referenced only by an initial value} x disable_analytic_solver; distinct by hash of the input",
             "samples": samples, "distribution": dist,
-            "layers": {"L1 parameter filter (in Coq)": len(coq), "probe: kinds/keys/initial values/symbol closure/propagators/parameters": dist["solvers_checked"]},
+            "layers": {"L1 parameter filter (in Coq)": len(coq), "L1b routing of initial values, keys in arbitrary order (in Coq)": len(coq_iv), "probe: kinds/keys/initial values/symbol closure/propagators/parameters": dist["solvers_checked"]},
             "corr_mismatches": corr_mismatches, "corr_errors": corr_errors, "probe_failures": probe_failures}
 
 
 def replay(payload):
     rp = payload.get("replay") or {}
+    if "iv_case" in rp:
+        c = rp["iv_case"]
+        o = C.run_tasks([{"fn": "c08.impl_ivs", "cases": [c]}], timeout=300)[0]["outs"][0]
+        if o["api"] != "Ok":
+            return False, "analysis fails: %s" % o["api"]
+        bad = [k for k in range(c["order"]) if abs(o["ivs"].get(c["name"] + c["marker"] * k, 1e99) - c["vals"][k]) > 1e-12]
+        return (not bad), "initial values returned %s, supplied %s" % (o["ivs"], c["pairs"])
     if "task" not in rp:
         return True, "replay file names a broken obligation (no concrete input): " + str(payload.get("no_longer_checks"))[:500]
     t = rp["task"]
-    r = C.run_tasks([dict(t, api_timeout=120, timeout=200)], timeout=200)[0]
+    if t.get("sequence"):
+        import copy as _copy
+        subs = []
+        for opt in t["sequence"]:
+            ind = _copy.deepcopy(t["indict"])
+            ind["options"] = opt
+            subs.append(dict(t, indict=ind, api_timeout=120))
+        rr = C.run_tasks([{"fn": "sysimpl.run_c08_seq", "subs": subs + [dict(t, api_timeout=120)], "timeout": 900, "fresh": True}], timeout=900)[0]
+        r = rr["results"][-1] if rr.get("outcome") == "Ok" else rr
+    else:
+        r = C.run_tasks([dict(t, api_timeout=120, timeout=200)], timeout=200)[0]
     if r.get("api") != "Ok":
         return True, "analysis no longer succeeds (%s)" % r.get("api")
     if "parameters" not in t["indict"]:
